@@ -5,7 +5,7 @@ set -u
 WT=$1; ID=$2
 export GOFLAGS=-mod=mod GOPROXY=off GOSUMDB=off GOTOOLCHAIN=local
 cd "$WT" || exit 2
-DEMO=$(python3 -c "import json;print(json.load(open('.mut/meta.json'))['demo_cmd'])")
+DEMO=$(python3 -c "import json;print(json.load(open('.mut/meta.json'))['demo_cmd'].replace('<WT>','$WT'))")
 echo "demo: $DEMO"
 git apply -R --check .mut/patch.diff 2>/dev/null || { echo "patch is not applied in the worktree"; exit 2; }
 sh -c "$DEMO" > .mut/with.log 2>&1; W=$?
